@@ -188,6 +188,19 @@ pub fn run(ctx: &Ctx) -> CheckOutput {
             }
         }
     }
+    // one very long stream per view (counters narrower than usize overflow under overflow checks)
+    for e in unary_catalogue() {
+        for spec in variants(e.kind, 3, &Spec::echo()) {
+            jobs.push(Box::new(move || {
+                let mut st = Stats::default();
+                let sink = Sink::new();
+                let a = alphabet(&spec);
+                let seqs = vec![vec![a[1], a[2], a[0], a[3]]];
+                check_long::<f64>(&spec, &seqs, if quick { 70_000 } else { 300_000 }, &mut st, &sink);
+                JobOut { stats: st, viols: sink.take(), samples: vec![] }
+            }));
+        }
+    }
     // thorough: slow numeric blow-ups must reach the internal finiteness assertions
     if !quick {
         for n in 1..=16usize {
